@@ -119,7 +119,7 @@ var clauseKW = map[string]bool{"func": true, "requires": true, "ensures": true, 
 	"implements": true, "ghost": true, "define": true, "axiom": true, "lemma": true, "calls": true, "assert": true,
 	"assume": true, "import": true, "noinline": true, "decreases": true, "atcall": true, "callsonly": true}
 
-var tagRe = regexp.MustCompile(`^((?:@C[0-9]+\s*)+):?\s*`)
+var tagRe = regexp.MustCompile(`^((?:@(?:C[0-9]+|SAFETY)\s*)+):?\s*`)
 
 func parseContractFile(path, pkgPath string, isSpeclib bool) (*ContractFile, error) {
 	data, err := os.ReadFile(path)
